@@ -58,8 +58,10 @@ async def scenario(scn: dict, obs: dict, tmp: Path) -> None:
     spec['started'] = str(tmp / 'started')
     spec['release'] = str(tmp / 'release')
     marker = str(tmp / 'init')
+    CURRENT['started'] = spec['started']
     sig = scn.get('signal')
     me = asyncio.current_task()
+    CURRENT['loop'] = asyncio.get_running_loop()
     obs['threads_before'] = thread_names()
     tasks_before = {t for t in asyncio.all_tasks() if t is not me}
     t0 = time.time()
@@ -94,6 +96,11 @@ async def scenario(scn: dict, obs: dict, tmp: Path) -> None:
     obs['repr_ok'] = isinstance(repr(running), str)
     obs['created_at_on_handle'] = isinstance(running.process_created_at, datetime)
     obs['sig_call'] = None
+    # helper tasks while the function runs (the `_run` task and, with log collection, `_listen`)
+    during = sorted((t.get_coro().__qualname__ if t.get_coro() else t.get_name())
+                    for t in asyncio.all_tasks() if t is not me and t not in tasks_before)
+    obs['tasks_during'] = during
+    obs['listener_seen'] = any(n.endswith('._listen') for n in during)
 
     async def send():
         when = sig['when']
@@ -145,6 +152,12 @@ async def scenario(scn: dict, obs: dict, tmp: Path) -> None:
     obs['is_alive'] = proc.is_alive()
     if exited is not None:
         obs['returned'] = repr(exited.returned)
+        r = exited.returned
+        obs['returned_n'] = r[1] if isinstance(r, tuple) and len(r) == 2 and r[0] == 'value' else None
+        x = exited.raised
+        obs['raised_args'] = list(x.args) if x is not None and all(isinstance(a, (int, str)) for a in x.args) else None
+        if isinstance(x, SystemExit):
+            obs['raised_args'] = [x.code]
         obs['has_returned'] = exited.returned is not None
         obs['raised_type'] = type(exited.raised).__name__ if exited.raised is not None else None
         obs['raised'] = repr(exited.raised)[:200] if exited.raised is not None else None
@@ -162,12 +175,34 @@ async def scenario(scn: dict, obs: dict, tmp: Path) -> None:
             await sender
         except BaseException:
             pass
+    # ---- late requests (the handle has been awaited: outside the property, compared with the model only).
+    # signal 0 instead of SIGINT: same code path (send_signal -> os.kill) but harmless if the pid was recycled
+    late = {}
+    for nm, fn in (('send_signal0', lambda: running.send_signal(0)), ('terminate', running.terminate), ('kill', running.kill)):
+        try:
+            fn()
+            late[nm] = 'ok'
+        except BaseException as e:
+            late[nm] = type(e).__name__
+    obs['late'] = late
+    # drop every reference we hold (an exception's traceback keeps the frames of _run alive)
+    exited = None
+    running = None
+    waiter = None
+    sender = None
+    me_tasks = None
+    fn = None
+    x = None
+    r = None
+    proc = None
+    pop = None
+    CURRENT['proc'] = None      # Process._args holds the initializer, hence the log queue
     obs['init_ran'] = os.path.exists(marker)
     obs['fn_started'] = os.path.exists(spec['started'])
     obs['n_logged'] = len(logged)
     # threads: give daemon feeder threads of collected queues a moment
     gc.collect()
-    t_end = time.time() + 1.0
+    t_end = time.time() + 3.0
     while time.time() < t_end:
         left = [n for n in thread_names() if not loop_own(n) and n not in obs['threads_before']]
         if not left:
@@ -199,6 +234,29 @@ def run_one(scn: dict) -> dict:
             if f is not None:
                 st[th.name] = [f'{x.filename.split("/")[-1]}:{x.lineno}:{x.name}' for x in traceback.extract_stack(f)][-8:]
         o['stacks'] = st
+        o['fn_started'] = bool(CURRENT.get('started')) and os.path.exists(CURRENT['started'])
+        # pending asyncio tasks (read from this thread; the loop is either blocked or idle)
+        pend = None
+        for _ in range(5):
+            try:
+                pend = sorted((t.get_coro().__qualname__ if t.get_coro() else t.get_name())
+                              for t in asyncio.all_tasks(CURRENT['loop']) if not t.done())
+                break
+            except Exception:
+                time.sleep(0.01)
+        o['pending_at_hang'] = pend
+        main = ' '.join(st.get('MainThread', []))
+        allst = ' '.join(' '.join(v) for v in st.values())
+        if 'pid' not in o:
+            o['hang_stage'] = 'start'
+        elif ':shutdown' in main and 'run.py' in main:
+            o['hang_stage'] = 'executor-shutdown-blocks-loop'
+        elif pend is not None and any(n.endswith('._listen') for n in pend) and 'selectors.py' in main:
+            o['hang_stage'] = 'log-listener-never-ends'
+        else:
+            o['hang_stage'] = 'other'
+        o['feeder_waits_for_write_lock'] = 'queues.py:263:_feed' in allst
+        o['reader_inside_partial_record'] = 'connection.py:395:_recv' in allst
         p = CURRENT.get('proc')
         if p is not None:
             try:
